@@ -189,4 +189,92 @@ theorem mixSplit_obs (a b M : Nat) (S : FS) (hc : Clean S) (hab : a < b) (hb : b
   rw [mem_range] at hma
   rw [splitW_eq _ _ _ _ (by omega)]
 
+/-! ### the public functions: `fs.combine_two_pops([p,q]).project(ns)` with only the merged population projected -/
+
+theorem stepsF_id (p : Nat) (ss : List Nat) (hpos : ∀ s ∈ ss, 1 ≤ s) : stepsF p ss (ss.map (· - 1)) = [] := by
+  induction ss generalizing p with
+  | nil => simp [stepsF_nil_left]
+  | cons s ss ih =>
+    have h1 : 1 ≤ s := hpos s (by simp)
+    rw [List.map_cons, stepsF_cons, if_pos (by omega)]
+    exact ih (p + 1) (fun x hx => hpos x (by simp [hx]))
+
+/-- the loop of `project` when only axis `k` changes its size performs exactly one step -/
+theorem stepsF_single (p : Nat) (ss : List Nat) (k M : Nat) (hk : k < ss.length) (hpos : ∀ s ∈ ss, 1 ≤ s)
+    (hne : M + 1 ≠ ss.getD k 0) : stepsF p ss ((ss.map (· - 1)).set k M) = [(p + k, M)] := by
+  induction ss generalizing p k with
+  | nil => simp at hk
+  | cons s ss ih =>
+    have h1 : 1 ≤ s := hpos s (by simp)
+    have hpos' : ∀ x ∈ ss, 1 ≤ x := fun x hx => hpos x (by simp [hx])
+    cases k with
+    | zero =>
+      simp only [List.map_cons, List.set_cons_zero, List.getD_cons_zero] at hne ⊢
+      rw [stepsF_cons, if_neg hne, stepsF_id (p + 1) ss hpos']
+      rfl
+    | succ k =>
+      simp only [List.map_cons, List.set_cons_succ, List.getD_cons_succ] at hne ⊢
+      rw [stepsF_cons, if_pos (by omega), ih (p + 1) k (by simpa using hk) hpos' hne]
+      congr 2; omega
+
+theorem projectCore_single (k M : Nat) (T : FS) (hk : k < T.ndim) (hpos : ∀ s ∈ T.shape, 1 ≤ s) (hne : M + 1 ≠ T.shape.getD k 0) :
+    projectCore ((T.shape.map (· - 1)).set k M) T = projectAxis k M T := by
+  rw [projectCore_eq_steps, stepsF_single 0 T.shape k M hk hpos hne]
+  simp [projSteps]
+
+theorem admSizes_pred (sh : List Nat) (hpos : ∀ s ∈ sh, 1 ≤ s) : List.Forall₂ (fun m s => m + 1 ≤ s) (sh.map (· - 1)) sh := by
+  induction sh with
+  | nil => simp
+  | cons s ss ih =>
+    have h1 : 1 ≤ s := hpos s (by simp)
+    rw [List.map_cons]
+    exact List.Forall₂.cons (by show s - 1 + 1 ≤ s; omega) (ih (fun x hx => hpos x (by simp [hx])))
+
+theorem admSizes_single (sh : List Nat) (k M : Nat) (hpos : ∀ s ∈ sh, 1 ≤ s) (hM : M + 1 ≤ sh.getD k 0) :
+    AdmSizes ((sh.map (· - 1)).set k M) sh := by
+  unfold AdmSizes
+  by_cases hk : k < sh.length
+  · conv => arg 3; rw [← set_getD_self sh k 0]
+    exact forall2_set (admSizes_pred sh hpos) k hM
+  · rw [List.set_eq_of_length_le (by simp; omega)]
+    exact admSizes_pred sh hpos
+
+/-- **public form**: `fs.combine_two_pops([p, q]).project(ns)` where `ns` keeps every sample size except that of the MERGED population,
+    which goes to `M < n_a + n_b`: succeeds and is observationally the hypergeometric mixture `mixSplit` (any order of `p`, `q`). -/
+theorem combineTwo_project_merged_public (p q M : Nat) (S : FS) (hf : S.folded = false) (hc : Clean S)
+    (hp : 1 ≤ p ∧ p ≤ S.ndim) (hq : 1 ≤ q ∧ q ≤ S.ndim) (hpq : p ≠ q)
+    (hM : M < (S.shape.getD (min p q - 1) 0 - 1) + (S.shape.getD (max p q - 1) 0 - 1)) :
+    ∃ T A, combineTwo p q S = some T ∧ project ((T.shape.map (· - 1)).set (min p q - 1) M) T = some A ∧
+      Obs A (mixSplit (min p q - 1) (max p q - 1) M S) ∧ A.labels = T.labels ∧ A.folded = false := by
+  set a := min p q - 1 with ha
+  set b := max p q - 1 with hb
+  have hab : a < b := by omega
+  have hbd : b < S.ndim := by omega
+  have hb0 : b < S.shape.length := hbd
+  have hcond : ¬ (p = 0 ∨ q = 0 ∨ p = q ∨ S.ndim < p ∨ S.ndim < q) := by omega
+  have hC : combineTwo p q S = some (combineTwoCore a b S) := by rw [combineTwo, if_neg hcond, c2Pair_eq]
+  set T := combineTwoCore a b S with hT
+  have hTsh : T.shape = mergeShape a b S.shape := rfl
+  have hTpos : ∀ s ∈ T.shape, 1 ≤ s := by
+    intro s hs
+    rw [hTsh, mergeShape_eq] at hs
+    rw [List.mem_map] at hs
+    obtain ⟨x, _, rfl⟩ := hs
+    omega
+  have hTf : T.folded = false := by show (Gen.c2PropagatesFolded && S.folded) = false; rw [hf]; simp
+  have hN := mergeShape_getD_a a b S.shape hab hb0 hc.1
+  have hak : a < T.ndim := by show a < (mergeShape a b S.shape).length; rw [mergeShape_length a b _ hb0]; omega
+  have hsa : 1 ≤ S.shape.getD a 0 := by
+    have : S.shape.getD a 0 = S.shape[a]'(by omega) := by simp [List.getD_eq_getElem?_getD, List.getElem?_eq_getElem (show a < S.shape.length by omega)]
+    rw [this]; exact hc.1 _ (List.getElem_mem _)
+  have hsb : 1 ≤ S.shape.getD b 0 := by
+    have : S.shape.getD b 0 = S.shape[b]'hb0 := by simp [List.getD_eq_getElem?_getD, List.getElem?_eq_getElem hb0]
+    rw [this]; exact hc.1 _ (List.getElem_mem _)
+  have hne : M + 1 ≠ T.shape.getD a 0 := by rw [hTsh, hN]; omega
+  have hadm : AdmSizes ((T.shape.map (· - 1)).set a M) T.shape := admSizes_single T.shape a M hTpos (by rw [hTsh, hN]; omega)
+  refine ⟨T, _, hC, project_unfolded _ T hTf hadm, ?_, rfl, rfl⟩
+  refine (obs_update _ _ _).trans ?_
+  rw [projectCore_single a M T hak hTpos hne]
+  exact mixSplit_obs a b M S hc hab hbd (by omega)
+
 end DadiVerif.PopOps
